@@ -131,11 +131,11 @@ NeedMoreEvents(evs) ==
 CheckEmptySequence(m, ev) == ev.k = "SequenceStart" /\ m.events # <<>> /\ m.events[1].k = "SequenceEnd"
 CheckEmptyMapping(m, ev)  == ev.k = "MappingStart" /\ m.events # <<>> /\ m.events[1].k = "MappingEnd"
 \* check_empty_document (emitter.py:430-435); `event.implicit` is a non-empty tuple, hence always true.
-\* Repair "D10": a tag that will be elided (plain-implicit) is as good as no tag.
+\* Repair "D10e": a tag that will be elided (plain-implicit) is as good as no tag.
 PyEmptyDocument(m, ev) ==
   ev.k = "DocumentStart" /\ m.events # <<>>
   /\ LET e == m.events[1]
-     IN  e.k = "Scalar" /\ e.a = "" /\ (e.t = "" \/ ("D10" \in Fix /\ e.i[1])) /\ ScalarText(e.v) = <<>>
+     IN  e.k = "Scalar" /\ e.a = "" /\ (e.t = "" \/ ("D10e" \in Fix /\ e.i[1])) /\ ScalarText(e.v) = <<>>
 CheckEmptyDocument(m, ev) == IF Variant = "libyaml" THEN FALSE ELSE PyEmptyDocument(m, ev)
 \* the root node for which nothing at all is written: no anchor, empty value in plain style, tag elided
 RootWritesNothing(m) ==
